@@ -415,8 +415,8 @@ def main():
     ck.cov["distinct_nontrivial"] = len(nontriv)
     ck.cov["rule"] = ("random integer point sets, 2-5 objectives, coordinates 0..R (R<=10 for 2-D .. R<=3 for 5-D) with duplicates, "
                       "single-coordinate ties, collinear and dominated points; queries R (ranks: dispatcher, fast, DC; n<=40), "
-                      "H (hypervolume: dispatcher, 2D, 3D, HOY, WFG; n<=40), K (smallest/largest-k contributions with reference, "
-                      "dispatcher + 2D/3D + MD; n<=18), S (2-D subset selection vs brute force; n<=10), N (contributions without reference, "
+                      "H (hypervolume: front end, 2D, 3D, HOY, WFG and WFG's limit set of the first point, each next to its extracted model; n<=40), K (smallest/largest-k contributions with reference, "
+                      "dispatcher + 2D/3D + MD; n<=18), S (2-D subset selection: selection vector equal to the extracted model's, optimal vs brute force; n<=10), N (contributions without reference, "
                       "separate stream); non-trivial = at least 3 points and (a duplicate or a dominated point or a K/N/S query); distinct = distinct case text")
     ck.cov["samples"] = cases[:2]
     ck.cov["traces_validated_against_impl"] = len(main_cases)
